@@ -1038,6 +1038,10 @@ def run(prog, rep, tier):
              'attribute-wise from_hdf5 are restored by the loader chain')
     if check_inherited_loader(prog, rep) < 10:
         raise AnalysisError('HDF5-inherited-loader: fewer than 10 classes with attribute-wise loaders')
+    rep.rule('HDF5-no-overwrite', 'a loader that delegates to super().from_hdf5 does not re-derive an '
+             'attribute the super loader restored from the file')
+    if check_loader_overwrite(prog, rep) < 2:
+        raise AnalysisError('HDF5-no-overwrite: fewer than 2 delegating from_hdf5 overrides')
     rep.rule('HDF5-empty-safe', 'single rows of arrays loaded from the file are only read under a '
              'length condition (legs without blocks)')
     check_loaded_array_ends(prog, rep)
@@ -1497,6 +1501,60 @@ def check_inherited_loader(prog, rep):
                       'own __init__ binds %s (read by its other methods): a loaded %s lacks them '
                       '(AttributeError on use)' % (ci.name, owner, miss, ci.name),
                       ci.methods['__init__'].lineno)
+    return n
+
+
+# ------------------------------------------------------------------ HDF5-no-overwrite
+def check_loader_overwrite(prog, rep):
+    """A from_hdf5 override that delegates to super().from_hdf5 receives an object whose saved
+    attributes are restored.  Assigning one of THOSE attributes again from something that does not
+    come out of the file (re-deriving it as __init__ would) discards the saved value: the loaded
+    object then differs from the saved one whenever the attribute was changed after construction."""
+    ct = prog.classtable()
+    n = 0
+    for ci in ct.all:
+        lf = ci.methods.get('from_hdf5')
+        if lf is None or not _calls_super(lf, 'from_hdf5'):
+            continue
+        # attributes (incl. property setters) stored by the loaders up the chain
+        restored = {}
+        cur = ci
+        f = lf
+        while True:
+            o2, f2 = ct.resolve_method(cur, 'from_hdf5', after=cur)
+            if f2 is None:
+                break
+            for st in ast.walk(f2):
+                if isinstance(st, ast.Assign):
+                    for t in st.targets:
+                        if isinstance(t, ast.Attribute) and isinstance(t.value, ast.Name) and \
+                                t.value.id in ('obj', 'res', 'self'):
+                            if any(isinstance(c, ast.Call) and isinstance(c.func, ast.Attribute)
+                                   and c.func.attr in ('load', 'get_attr') for c in ast.walk(st.value)):
+                                restored.setdefault(t.attr, o2.name)
+            if not _calls_super(f2, 'from_hdf5'):
+                break
+            cur = o2
+        n += 1
+        rep.instance('HDF5-no-overwrite', {'class': ci.name, 'restored_by_super': sorted(restored)})
+        for st in ast.walk(lf):
+            if not isinstance(st, ast.Assign):
+                continue
+            for t in st.targets:
+                if isinstance(t, ast.Attribute) and isinstance(t.value, ast.Name) and \
+                        t.value.id in ('obj', 'res') and t.attr in restored:
+                    from_file = any(
+                        isinstance(c, ast.Call) and isinstance(c.func, ast.Attribute) and
+                        c.func.attr in ('load', 'get_attr') for c in ast.walk(st.value)) or \
+                        'h5gr' in {x.id for x in ast.walk(st.value) if isinstance(x, ast.Name)}
+                    if not from_file:
+                        rep.violation(
+                            'HDF5-no-overwrite', ci.module, ci.name + '.from_hdf5',
+                            'overwrites:' + t.attr,
+                            '`%s`: .%s was just restored from the file by %s.from_hdf5; deriving '
+                            'it again discards the saved value (a value set after construction '
+                            'is lost in the round trip)' % (unparse(st)[:70], t.attr,
+                                                            restored[t.attr]), st.lineno)
     return n
 
 
